@@ -157,7 +157,12 @@ func saga1Sparse(
       return x1, g.Int63(), err
     } else {
       // execute hook if available
-      if hook.Value != nil && hook.Value(x1, ConstFloat64(delta), ConstFloat64(float64(n)*proxop.GetLambda()/gamma.Value), epoch) {
+      // without regularization there is no proximal operator
+      lambda := 0.0
+      if proxop != nil {
+        lambda = float64(n)*proxop.GetLambda()/gamma.Value
+      }
+      if hook.Value != nil && hook.Value(x1, ConstFloat64(delta), ConstFloat64(lambda), epoch) {
         break
       }
     }
@@ -245,7 +250,12 @@ func saga2Sparse(
       return x1, g.Int63(), err
     } else {
       // execute hook if available
-      if hook.Value != nil && hook.Value(x1, ConstFloat64(delta), ConstFloat64(float64(n)*proxop.GetLambda()/gamma.Value), epoch) {
+      // without regularization there is no proximal operator
+      lambda := 0.0
+      if proxop != nil {
+        lambda = float64(n)*proxop.GetLambda()/gamma.Value
+      }
+      if hook.Value != nil && hook.Value(x1, ConstFloat64(delta), ConstFloat64(lambda), epoch) {
         break
       }
     }
